@@ -22,6 +22,8 @@ type c14Op struct {
 
 func (o c14Op) String() string {
 	switch o.kind {
+	case "Lookups":
+		return "HasType/GetType(a,b,c,zz,\"\")"
 	case "AddType", "RemoveType":
 		return fmt.Sprintf("%s(%q)", o.kind, o.typ)
 	case "AddAttr":
@@ -59,6 +61,7 @@ func c14Ops() []c14Op {
 			c14Op{kind: "RemoveRel", typ: t, name: "s"},
 		)
 	}
+	ops = append(ops, c14Op{kind: "Lookups"})
 	two := func(ft, fn, tt, tn string) c14Op {
 		return c14Op{kind: "AddTwoWayRel", rel: j.Rel{FromType: ft, FromName: fn, ToOne: true, ToType: tt, ToName: tn, FromOne: false}}
 	}
@@ -98,6 +101,8 @@ func validKind(a j.Attr) bool { return a.Type >= j.AttrTypeString && a.Type <= j
 // apply returns whether the edit must report an error (and then changes nothing).
 func (m *c14Model) apply(o c14Op) (wantErr bool, hasErr bool) {
 	switch o.kind {
+	case "Lookups":
+		return false, false
 	case "AddType":
 		if o.typ == "" || m.find(o.typ) != nil {
 			return true, true
@@ -230,13 +235,32 @@ func c14Invariant(s *j.Schema) string {
 			}
 		}
 	}
+	return ""
+}
+
+// c14Lookups checks that the lookups agree with the list of types. It is an
+// OPERATION of the alphabet (not run after every step), so histories with and
+// without intermediate lookups are both explored: a memoised lookup that is
+// refreshed whenever it is consulted would otherwise never be seen stale.
+func c14Lookups(s *j.Schema) string {
+	byName := map[string]j.Type{}
+	for _, t := range s.Types {
+		byName[t.Name] = t
+	}
 	for _, n := range []string{"a", "b", "c", "zz", ""} {
-		if s.HasType(n) != seen[n] {
-			return fmt.Sprintf("HasType(%q) = %v but the list of types says %v", n, s.HasType(n), seen[n])
+		want, present := byName[n]
+		if s.HasType(n) != present {
+			return fmt.Sprintf("HasType(%q) = %v but the list of types says %v", n, s.HasType(n), present)
 		}
 		g := s.GetType(n)
-		if seen[n] && g.Name != n || !seen[n] && g.Name != "" {
-			return fmt.Sprintf("GetType(%q).Name = %q", n, g.Name)
+		if !present {
+			if g.Name != "" {
+				return fmt.Sprintf("GetType(%q).Name = %q for a type that is not in the list", n, g.Name)
+			}
+			continue
+		}
+		if renderType(g) != renderType(want) {
+			return fmt.Sprintf("GetType(%q) = [%s] but the list of types holds [%s]", n, renderType(g), renderType(want))
 		}
 	}
 	return ""
@@ -258,8 +282,11 @@ func (y *c14Sys) Apply(opi int) (fails []mc.Violation, fatal bool) {
 	before := mc.Snap(y.s)
 	beforeR := renderSchema(y.s)
 	var err error
+	lookupComplaint := ""
 	p := Try(func() {
 		switch o.kind {
+		case "Lookups":
+			lookupComplaint = c14Lookups(y.s)
 		case "AddType":
 			err = y.s.AddType(j.Type{Name: o.typ})
 		case "RemoveType":
@@ -292,6 +319,16 @@ func (y *c14Sys) Apply(opi int) (fails []mc.Violation, fatal bool) {
 	}
 	if inv := c14Invariant(y.s); inv != "" {
 		fail("invariant", "on schema [%s]: %s", beforeR, inv)
+	}
+	if lookupComplaint != "" {
+		fail("disagree", "on schema [%s]: %s", beforeR, lookupComplaint)
+	}
+	if o.kind == "Lookups" && mc.Snap(y.s) != before {
+		// a lookup may fill a private cache; that is C12's business, but it must
+		// not change what the schema holds
+		if renderSchema(y.s) != beforeR {
+			fail("changed-schema", "a lookup changed the schema from [%s] to [%s]", beforeR, renderSchema(y.s))
+		}
 	}
 	return fails, false
 }
